@@ -6,6 +6,7 @@ from checks import callcommon, ctxcommon
 from framework import Case
 
 PROP = "C02"
+GENERATED = ['OpSemantics', 'DtypeTables']  # generated files this check's tie depends on
 LEAN_MODULES = ["Properties.C02"]
 RULE = (
     "seeded contexts that are conforming by construction (0 perturbations in 3 of 4 cases), ranks 0-5, zero-sized axes, zero-length groups, "
@@ -24,9 +25,20 @@ def cases(tier, rng, run):
         c = gen_ctx.gen_ctx(rng, perturb=(0, 0, 0, 1), tuple_p=0.25, ret_p=0.4)
         if i % 3 == 0:
             out.append(Case(c.ctx_line(), "ctx", {"ctx": c}))
-        line = c.call_line("func", rng.choice(["pos", "kw", "mixed"]))
-        if rng.random() < 0.3:
+        style = rng.choice(["pos", "kw", "mixed", "fwd"])
+        line = c.call_line("func", style)
+        r = rng.random()
+        if r < 0.3:
             line += "\tD|opts|" + rng.choice(DEFAULTS)
+        elif r < 0.5 and c.params and not c.params[-1].is_tuple and c.params[-1].slots[0].value[0] == "T":
+            # the last hinted parameter gets a default that the caller omits; extra *args / **kwargs absorb arguments
+            items = line.split("\t")
+            k = max(i for i, it in enumerate(items) if it.startswith("P|"))
+            items[k] = "PD|" + items[k][2:]
+            extra = rng.choice(["VA|rest|X;X", "VK|options|axis=0;order=1", "VA|rest|X", ""])
+            if extra.startswith("VA"):
+                items[1] = "func:pos"
+            line = "\t".join(items + ([extra] if extra else []))
         out.append(Case(line, "call", {"ctx": c}))
     return out
 
